@@ -56,11 +56,28 @@ const (
 	dmEnvJitter = "GLB_VERIF_DM_JITTER"
 	dmEnvLife   = "GLB_VERIF_DM_LIFE_MS"
 	dmEnvRole   = "GLB_VERIF_ROLE"
-	dmEnvScrub  = "GLB_VERIF_DM_SCRUB" // the handler clears the daemon package's own env vars before Done()
-	dmEnvDie    = "GLB_VERIF_DM_DIE"   // the handler exits with status 3 before reaching Done()
+	dmEnvScrub  = "GLB_VERIF_DM_SCRUB"  // the handler clears the daemon package's own env vars before Done()
+	dmEnvDie    = "GLB_VERIF_DM_DIE"    // the handler exits with status 3 before reaching Done()
+	dmEnvNested = "GLB_VERIF_DM_NESTED" // after Done() the daemon itself launches a second daemon (a supervisor starting a worker)
+	dmWorker    = "verifw"
 )
 
+// dmWorkerHandler: the daemon a supervising daemon launches.
+func dmWorkerHandler() {
+	dir := os.Getenv(dmEnvDir)
+	if dir == "" {
+		return
+	}
+	pid, ppid := os.Getpid(), os.Getppid()
+	dmWriteAtomic(filepath.Join(dir, strconv.Itoa(pid)+".worker"), fmt.Sprintf("%d %d", pid, ppid))
+	if os.Getppid() == ppid {
+		daemon.Done()
+	}
+	time.Sleep(1500 * time.Millisecond)
+}
+
 func dmEarly() {
+	daemon.Register(dmWorker, dmWorkerHandler)
 	daemon.Register(dmName, dmHandler)
 	if daemon.Run() {
 		os.Exit(0)
@@ -106,6 +123,13 @@ func dmHandler() {
 		res = fmt.Sprint(daemon.Done())
 	}
 	dmWriteAtomic(filepath.Join(dir, strconv.Itoa(pid)+".after"), fmt.Sprintf("%d %d %s", pid, os.Getppid(), res))
+	if os.Getenv(dmEnvNested) == "1" {
+		// a daemon may itself launch daemons: Launch(name) must start THAT handler, whatever the
+		// calling process's own role variables say
+		os.Unsetenv(dmEnvNested)
+		wpid, werr := daemon.Launch(dmWorker)
+		dmWriteAtomic(filepath.Join(dir, strconv.Itoa(pid)+".nested"), fmt.Sprintf("%d %v", wpid, werr))
+	}
 	time.Sleep(time.Duration(life) * time.Millisecond)
 }
 
@@ -414,6 +438,38 @@ func (d *dmRun) scenario(name string, n, delayMs int, paused, jitter bool) {
 	}
 }
 
+// nested: the launched daemon launches a second daemon itself after Done().
+func (d *dmRun) nested() {
+	dir := d.newDir()
+	restore := dmSetenv(map[string]string{dmEnvDir: dir, dmEnvDelay: "0", dmEnvLife: "3000", dmEnvNested: "1"})
+	r := dmLaunch(dir)
+	restore()
+	sc := dmCase{Scenario: "nested-launch", Parallel: 1}
+	d.s.Evaluations++
+	if r.hang || r.err != nil {
+		d.s.Violate("launch-error", fmt.Sprintf("outer Launch failed: hang=%v err=%v", r.hang, r.err), sc)
+		return
+	}
+	d.remember(r.pid)
+	data, ok := dmWaitFile(filepath.Join(dir, strconv.Itoa(r.pid)+".nested"), 20*time.Second)
+	if !ok {
+		d.s.Violate("nested-launch", "the daemon's own Launch(worker) did not return within 20 s", sc)
+		return
+	}
+	var wpid int
+	var werr string
+	fmt.Sscanf(string(data), "%d %s", &wpid, &werr)
+	if werr != "<nil>" {
+		d.s.Violate("nested-launch", fmt.Sprintf("Launch(%q) called from inside a daemon returned %q", dmWorker, string(data)), sc)
+		return
+	}
+	d.remember(wpid)
+	if _, ok := dmWaitFile(filepath.Join(dir, strconv.Itoa(wpid)+".worker"), 2*time.Second); !ok {
+		d.s.Violate("nested-launch", fmt.Sprintf("Launch(%q) from inside a daemon returned pid %d, but that process never ran the %q handler", dmWorker, wpid, dmWorker), sc)
+	}
+	d.s.Nontrivial("nested-launch")
+}
+
 // failThenHealthy: a Launch whose daemon dies before Done() must return an error; a healthy Launch
 // right afterwards in the same process must not be affected by it.
 func (d *dmRun) failThenHealthy() {
@@ -499,6 +555,9 @@ func runDaemon(cfg Cfg) {
 		}
 		if i%4 == 1 {
 			d.failThenHealthy()
+		}
+		if i%6 == 2 {
+			d.nested()
 		}
 		if i%4 == 3 {
 			restore := dmSetenv(map[string]string{dmEnvScrub: "1"})
